@@ -74,10 +74,13 @@ pub fn generate(seed: u64, thorough: bool, sink: &mut Sink) -> Vec<String> {
     let c_total = if big { 5 + rng.below(8) as usize } else { 1 + rng.below(4) as usize };
     // one case in five is long: five to seven block rows (of one or two blocks) or five to seven blocks in a row
     // (of one or two block rows): the variable-arity kernels
-    let long = !big && rng.chance(1, 5);
+    // one case in eight is wide and several rows high also in the quick tier (three to five rows of five to eight columns)
+    let wide = !big && rng.chance(1, 8);
+    let (r_total, c_total) = if wide { (3 + rng.below(3) as usize, 5 + rng.below(4) as usize) } else { (r_total, c_total) };
+    let long = !big && !wide && rng.chance(1, 5);
     let long_col = long && rng.chance(1, 2);
     let (r_total, c_total) = if !long { (r_total, c_total) } else if long_col { (5 + rng.below(5) as usize, 1 + rng.below(2) as usize) } else { (1 + rng.below(2) as usize, 5 + rng.below(5) as usize) };
-    let nrows = if long && long_col { 5 + rng.below((r_total - 4).min(3) as u64) as usize } else { 1 + rng.below(r_total.min(4) as u64) as usize };
+    let nrows = if wide { r_total } else if long && long_col { 5 + rng.below((r_total - 4).min(3) as u64) as usize } else { 1 + rng.below(r_total.min(4) as u64) as usize };
     let heights = split(r_total, nrows, &mut rng);
     let mut shapes: Vec<Vec<(usize, usize)>> = vec![];
     for h in &heights {
@@ -86,10 +89,16 @@ pub fn generate(seed: u64, thorough: bool, sink: &mut Sink) -> Vec<String> {
       shapes.push(widths.iter().map(|w| (*h, *w)).collect());
     }
     // sabotage: none / one block's height / one block's width / one block's kind
-    let sab = match rng.below(10) { 0 => "height", 1 => "width", 2 => "kind", _ => "none" };
+    // … / one row narrower than the others (a block dropped or made narrower; any row, the later ones more often)
+    let sab = match rng.below(12) { 0 => "height", 1 => "width", 2 => "kind", 3 | 4 => "narrow", _ => "none" };
     let (sr, sb) = { let r = rng.below(shapes.len() as u64) as usize; (r, rng.below(shapes[r].len() as u64) as usize) };
     if sab == "height" { shapes[sr][sb].0 += 1; }
     if sab == "width" { shapes[sr][sb].1 += 1; }
+    if sab == "narrow" && shapes.len() >= 2 {
+      let r = if rng.chance(2, 3) { shapes.len() - 1 - rng.below((shapes.len() as u64).min(2)) as usize } else { rng.below(shapes.len() as u64) as usize };
+      if shapes[r].len() >= 2 && rng.chance(1, 2) { shapes[r].pop(); }
+      else { let b = shapes[r].len() - 1; if shapes[r][b].1 >= 2 { shapes[r][b].1 -= 1; } else if shapes[r].len() >= 2 { shapes[r].pop(); } }
+    }
     let mut rows_txt = vec![];
     for (ri, row) in shapes.iter().enumerate() {
       let mut blocks = vec![];
